@@ -83,6 +83,8 @@ Proof.
   - now apply run_redo_np.
   - destruct ranges; [discriminate|]. now apply run_reset_np.
   - now apply run_log_clear_np.
+  - now apply run_edit_np.
+  - now apply run_rebase_np.
   - destruct (open_stack PAllow w); discriminate.
   - apply run_git_np.
   - apply run_git_np.
